@@ -180,6 +180,7 @@ func (r *recDialer) DialContext(ctx context.Context, network, addr string) (net.
 }
 
 var errCallerDialer = errors.New("verif: the caller's HostDialer was asked")
+var errCallerVeto = errors.New("verif: the caller's VerifyConnection rejects this node")
 
 // the caller's HostDialer: records the call and hands out nothing
 type recHostDialer struct{ calls []string }
@@ -197,7 +198,7 @@ type dialTarget struct {
 }
 
 func (e *dialEnvT) target(d string) dialTarget {
-	p := strings.Split(d, ":")
+	p := strings.Split(strings.TrimSuffix(d, "!"), ":")
 	if len(p) != 2 || e.nodes[p[0]] == nil {
 		panic("bad dial " + d)
 	}
@@ -256,6 +257,7 @@ func dialOp(w []string) string {
 	}
 	var vsn []string // ServerName as crypto/tls reports it to the caller's VerifyConnection
 	var vmu sync.Mutex
+	veto := false // the caller's callback rejects the dial in progress (`<dial>!`)
 	if ssl != "-" {
 		p := strings.Split(ssl, ":")
 		if len(p) != 3 {
@@ -283,7 +285,11 @@ func dialOp(w []string) string {
 			o.Config.VerifyConnection = func(cs tls.ConnectionState) error {
 				vmu.Lock()
 				vsn = append(vsn, vh.Hex([]byte(cs.ServerName)))
+				v := veto
 				vmu.Unlock()
+				if v {
+					return errCallerVeto
+				}
 				return nil
 			}
 		}
@@ -311,6 +317,7 @@ func dialOp(w []string) string {
 		}
 		vmu.Lock()
 		vsn = nil
+		veto = strings.HasSuffix(d, "!")
 		vmu.Unlock()
 		if rd != nil {
 			rd.addrs = nil
@@ -354,7 +361,7 @@ func dialOp(w []string) string {
 				res = "err:no-port"
 			case strings.Contains(m, "host missing connect ip address"):
 				res = "err:no-ip"
-			case strings.Contains(m, "x509:") || strings.Contains(m, "tls:"):
+			case strings.Contains(m, "x509:") || strings.Contains(m, "tls:") || errors.Is(derr, errCallerVeto) || strings.Contains(m, errCallerVeto.Error()):
 				res = "err:tls"
 			case errors.As(derr, &oe) && oe.Op == "dial":
 				res = "err:dial"
@@ -495,6 +502,11 @@ func genDialArgs(r *vh.Rng, secOnly bool) (string, string) {
 		dials[0], dials[1] = "a:n", "b:n"
 		if r.Bool() {
 			dials[0], dials[1] = "b:n", "a:n"
+		}
+	}
+	for i := range dials { // the caller's own VerifyConnection callback rejects this node
+		if r.Intn(6) == 0 {
+			dials[i] += "!"
 		}
 	}
 	kind := "plain"
